@@ -158,6 +158,8 @@ pub struct Step {
     pub wedge: Option<String>,
     /// extra id-management sub-calls made while resolving the id source: (call, events)
     pub pre: Vec<(Call, Vec<NEvent>)>,
+    /// a new session started in this step (clean start sent/received, or CONNACK without session present)
+    pub new_session: bool,
 }
 
 impl Step {
@@ -300,7 +302,13 @@ impl Tracker {
                 Opt::AutoPing(b) => self.auto_ping = *b,
                 Opt::AutoMap(b) => self.auto_map = *b,
                 Opt::AutoReplace(b) => self.auto_replace = *b,
-                Opt::Offline(b) => self.offline = *b,
+                Opt::Offline(b) => {
+                    self.offline = *b;
+                    if *b {
+                        // enabling offline publishing makes the session kept at once (until the next CONNECT decides anew)
+                        self.persistent = true;
+                    }
+                }
                 Opt::PingrespTimeout(ms) => self.pingresp_timeout = *ms,
                 Opt::PingInterval(i) => self.ping_override = *i,
             },
@@ -308,9 +316,7 @@ impl Tracker {
                 self.status = St::Disconnected;
                 self.closed_reported = true;
                 self.close_requested = false;
-                let (p, o) = (self.persistent, self.offline);
                 self.reset_connection_scope();
-                self.persistent = p || o;
             }
             _ => {}
         }
@@ -668,7 +674,14 @@ pub fn connack_ap(v: V, a: &ConnackArgs) -> AP {
     };
     let mut props = Vec::new();
     if v == V::V5 {
-        if let Some(x) = a.p.sei {
+        // Known open finding D23 (known_findings.txt): a CONNACK with session present AND Session Expiry
+        // Interval 0 wipes the resumed session. The trigger is excluded by construction so that the search
+        // continues behind it; the witness replays regressions/C06|C08/D23_* report it as KNOWN-FINDING.
+        let d23 = a.sp && code == 0 && a.p.sei == Some(0);
+        if d23 {
+            EXCLUDED_D23.fetch_add(1, std::sync::atomic::Ordering::Relaxed);
+        }
+        if let (Some(x), false) = (a.p.sei, d23) {
             props.push(Prop::u32(pid::SESSION_EXPIRY_INTERVAL, x));
         }
         if let Some(x) = a.p.rm {
@@ -748,6 +761,8 @@ pub struct World {
     pub steps: Vec<Step>,
     /// stop executing further ops (after a panic)
     pub dead: bool,
+    /// contract mode: once the library requested the close, no more peer bytes are fed until notify_closed
+    pub strict_close: bool,
 }
 
 fn nth<T: Copy + Ord>(set: &BTreeSet<T>, k: u16) -> Option<T> {
@@ -760,7 +775,7 @@ fn nth<T: Copy + Ord>(set: &BTreeSet<T>, k: u16) -> Option<T> {
 
 impl World {
     pub fn new(cfg: ConnCfg) -> World {
-        World { c: new_conn(cfg), t: Tracker::new(cfg), app: App::default(), chunk: 0, steps: Vec::new(), dead: false }
+        World { c: new_conn(cfg), t: Tracker::new(cfg), app: App::default(), chunk: 0, steps: Vec::new(), dead: false, strict_close: true }
     }
 
     pub fn v(&self) -> V {
@@ -829,7 +844,7 @@ impl World {
         let idx = self.steps.len();
         let v = self.v();
         let mut pre: Vec<(Call, Vec<NEvent>)> = Vec::new();
-        let mut st = Step { idx, op: op.clone(), call: Call::Skipped(String::new()), events: vec![], calls: vec![], panic: None, wedge: None, pre: vec![] };
+        let mut st = Step { idx, op: op.clone(), call: Call::Skipped(String::new()), events: vec![], calls: vec![], panic: None, wedge: None, pre: vec![], new_session: false };
         enum Act {
             Send(AP),
             Recv(Vec<u8>, Option<AP>),
@@ -1000,6 +1015,10 @@ impl World {
                 }
             }
         };
+        let act = match act {
+            Act::Recv(..) if self.strict_close && self.t.close_requested => Act::Skip("transport is being closed"),
+            a => a,
+        };
         match act {
             Act::Skip(why) => st.call = Call::Skipped(why.to_string()),
             Act::Send(ap) => match self.c.send(&ap) {
@@ -1110,6 +1129,7 @@ impl World {
             self.dead = true;
         }
         let new_session = self.t.update(&st);
+        st.new_session = new_session;
         if new_session {
             self.app.new_session();
         }
@@ -1155,8 +1175,15 @@ pub fn connect_args(v5: bool) -> BoxedStrategy<ConnectArgs> {
 }
 
 pub fn connack_args(v5: bool) -> BoxedStrategy<ConnackArgs> {
-    (any::<bool>(), prop_oneof![9 => Just(0u8), 1 => 1u8..7], hs_props(v5)).prop_map(|(sp, fail, p)| ConnackArgs { sp, fail, p }).boxed()
+    (any::<bool>(), prop_oneof![9 => Just(0u8), 1 => 1u8..7], hs_props(v5))
+        .prop_map(|(sp, fail, p)| {
+            ConnackArgs { sp, fail, p }
+        })
+        .boxed()
 }
+
+/// number of generated CONNACKs from which the D23 trigger was removed
+pub static EXCLUDED_D23: std::sync::atomic::AtomicU64 = std::sync::atomic::AtomicU64::new(0);
 
 pub fn alias_mode(max: u16) -> BoxedStrategy<AliasMode> {
     prop_oneof![
